@@ -12,6 +12,8 @@ EXTENDS Integers, Sequences, FiniteSets, SequencesExt, TLC, Json, CSV, IOUtils
 
 CONSTANT Emit         \* TRUE = write a deterministic sample of the explored configurations as cases for replay
 CONSTANT Recheck      \* TRUE = the algorithm as implemented; FALSE drops the recursive re-check (negative control)
+CONSTANT SkipMatched  \* TRUE = as implemented since the repair of the exponential re-check: a transaction that already matched
+                      \* is not visited again; FALSE = the original algorithm (same result, exponentially many visits)
 VARIABLES scFlags, scI0, scOuts, scSp, scStage
 scvars == <<scFlags, scI0, scOuts, scSp, scStage>>
 N == 3
@@ -58,7 +60,7 @@ MatchUpd(I, t) ==
 \* the algorithm: st = [I, matched, deps]  (deps[p] = sequence of spenders of p registered so far)
 RECURSIVE CheckTx(_, _, _)
 CheckTx(st, t, fuel) ==
-  IF fuel = 0 THEN st
+  IF fuel = 0 \/ (SkipMatched /\ t \in st.matched) THEN st
   ELSE LET r == MatchUpd(st.I, t) IN
        IF ~r.m THEN st
        ELSE FoldLeft(LAMBDA acc, d : CheckTx(acc, d, fuel - 1),
